@@ -42,7 +42,7 @@
 #endif
 
 enum { K_WAIT = 1, K_BEGIN, K_LOADX, K_LOAD, K_STORE, K_XCHG, K_FADD, K_READ, K_WRITE, K_INCB };
-enum { CMD_STEP = 0, CMD_CLOSE = 1, CMD_CLOSECB = 2, CMD_EINTR = 3 };   /* CMD_CLOSE + 16*h */
+enum { CMD_STEP = 0, CMD_CLOSE = 1, CMD_CLOSECB = 2, CMD_EINTR = 3, CMD_FORK = 4 };   /* CMD_CLOSE + 16*h */
 
 #define MAXH 4
 #define MAXS 4
@@ -66,6 +66,8 @@ static int cb_of = -1;                    /* handle whose callback the loop thre
 static int closing_now = -1;              /* handle whose uv_close is in progress */
 static uint64_t efd_count;
 static uint64_t efd_cap;                  /* cfg cap=<n>: the simulated counter saturates here (write -> EAGAIN); 0 = never */
+static int fork_budget, fk_left;           /* cfg fork=<n>: fork()+uv_loop_fork() events per run; the run continues in the child */
+static int dead[MAXS];                    /* sender threads that were inside uv_async_send at fork time: they do not exist in the child */
 static int eintr_budget, ei_left;         /* cfg eintr=<n>: EINTR answers the environment may give per run */
 static int efd_fd = -1;
 static int guard = 1;
@@ -244,6 +246,19 @@ static void loop_fn(int id) {
     if (cmd == CMD_STEP) {
       eff_add("wake");
       uv__async_io(L, &L->async_io_watcher, POLLIN);
+    } else if (cmd == CMD_FORK) {
+      /* the child's view of fork(): only this thread survives; uv_loop_fork() -> uv__async_fork() (the real one, run in
+       * this process: new eventfd, handle flags reset); sends undelivered at this point are not owed in the child */
+      int t, h;
+      eff_add("fork");
+      for (t = 0; t < ns; t++)
+        if (!sched_done(t + 1) && sched_t[t + 1].kind != K_BEGIN) { dead[t] = 1; S[t].active = 0; }
+      if (uv__async_fork(L)) { fprintf(stderr, "uv__async_fork failed\n"); exit(3); }
+      efd_fd = L->async_io_watcher.fd; efd_count = 0;
+      for (h = 0; h < nh; h++) {
+        completed[h] = 0;
+        if (freed[h] && !released[h] && inflight(h) == 0) { released[h] = 1; free(H[h]); }
+      }
     } else if (cmd == CMD_CLOSECB) {
       int before[MAXH], h;
       for (h = 0; h < nh; h++) before[h] = freed[h];
@@ -273,13 +288,13 @@ static void sender_fn(int id) {
 }
 
 /* ------------------------------------------------------------------ state, enabled set */
-typedef struct { char kind; int arg; } tok_t;    /* 's' t | 'e' t (write of sender t answers EINTR) | 'i' (loop's read answers EINTR) | 'l' | 'c' h | 'f' */
+typedef struct { char kind; int arg; } tok_t;    /* 's' t | 'e' t (write of sender t answers EINTR) | 'i' (loop's read answers EINTR) | 'l' | 'k' (fork, continue in the child) | 'c' h | 'f' */
 
 static void tok_str(tok_t k, char* b) {
-  if (k.kind == 'l' || k.kind == 'f' || k.kind == 'i') sprintf(b, "%c", k.kind); else sprintf(b, "%c%d", k.kind, k.arg);
+  if (k.kind == 'l' || k.kind == 'f' || k.kind == 'i' || k.kind == 'k') sprintf(b, "%c", k.kind); else sprintf(b, "%c%d", k.kind, k.arg);
 }
 
-static int sender_midsend(int t) { return !sched_done(t + 1) && sched_t[t + 1].kind != K_BEGIN; }
+static int sender_midsend(int t) { return !dead[t] && !sched_done(t + 1) && sched_t[t + 1].kind != K_BEGIN; }
 static int interrupted(int v) {           /* v = -1: loop thread */
   for (int t = 0; t < ns; t++) if (sigvictim[t] == v && sender_midsend(t)) return 1;
   return 0;
@@ -289,10 +304,10 @@ static int enabled_set(tok_t* out) {
   int n = 0, h, t;
   sched_thread* lt = &sched_t[0];
   for (t = 0; t < ns; t++)
-    if (!sched_done(t + 1) && !interrupted(t)) { out[n].kind = 's'; out[n++].arg = t; }
+    if (!dead[t] && !sched_done(t + 1) && !interrupted(t)) { out[n].kind = 's'; out[n++].arg = t; }
   if (ei_left > 0)
     for (t = 0; t < ns; t++)
-      if (!sched_done(t + 1) && !interrupted(t) && sched_t[t + 1].kind == K_WRITE) { out[n].kind = 'e'; out[n++].arg = t; }
+      if (!dead[t] && !sched_done(t + 1) && !interrupted(t) && sched_t[t + 1].kind == K_WRITE) { out[n].kind = 'e'; out[n++].arg = t; }
   if (!interrupted(-1)) {
     int lrun = 0;
     if (ei_left > 0 && lt->kind == K_READ) { out[n].kind = 'i'; out[n++].arg = 0; }
@@ -303,6 +318,7 @@ static int enabled_set(tok_t* out) {
       default: lrun = 1;
     }
     if (lrun) { out[n].kind = 'l'; out[n++].arg = 0; }
+    if (fk_left > 0 && lt->kind == K_WAIT) { out[n].kind = 'k'; out[n++].arg = 0; }
     if (lt->kind == K_WAIT || lt->kind == K_INCB)
       for (h = 0; h < nh; h++)
         if (closable[h] && !closing_f[h]) { out[n].kind = 'c'; out[n++].arg = h; }
@@ -379,7 +395,8 @@ static const char* state_str(void) {
     sched_thread* st = &sched_t[t + 1];
     const char* pc = "idle";
     char ob[24];
-    if (st->kind == K_LOADX || (st->kind == K_LOAD && is_pending(st->addr))) pc = "load";
+    if (dead[t]) pc = "idle";
+    else if (st->kind == K_LOADX || (st->kind == K_LOAD && is_pending(st->addr))) pc = "load";
     else if (st->kind == K_FADD && st->val == 1) pc = "inc";
     else if (st->kind == K_FADD && st->val == -1) pc = "dec";
     else if (st->kind == K_XCHG) pc = "xchg";
@@ -387,7 +404,7 @@ static const char* state_str(void) {
     else if (st->kind != K_BEGIN && st->kind != SCHED_K_DONE) { sprintf(ob, "k%d", st->kind); pc = ob; }
     p += sprintf(p, " t%d:%s,h%d,k%d,q%d", t, pc, S[t].h, S[t].k, S[t].seq);
   }
-  p += sprintf(p, " | ei=%d en=", ei_left);
+  p += sprintf(p, " | ei=%d fk=%d en=", ei_left, fk_left);
   n = enabled_set(en);
   for (t = 0; t < n; t++) { tok_str(en[t], b); p += sprintf(p, "%s%s", t ? "," : "", b); }
   return statebuf;
@@ -399,7 +416,7 @@ static void check_state(void) {
   sched_thread* lt = &sched_t[0];
   /* close_safe: nobody writes the eventfd on behalf of a handle whose uv__async_close returned */
   for (t = 0; t < ns; t++)
-    if (sched_t[t + 1].kind == K_WRITE && unlinked[S[t].h]) {
+    if (!dead[t] && sched_t[t + 1].kind == K_WRITE && unlinked[S[t].h]) {
       snprintf(b, sizeof b, "sender %d about to write the eventfd for h%d after uv__async_close(h%d) returned", t, S[t].h, S[t].h);
       violation("wakeup-write-after-close", b);
     }
@@ -429,7 +446,7 @@ static void start_run(void) {
   memset(closing_f, 0, sizeof closing_f); memset(unlinked, 0, sizeof unlinked); memset(freed, 0, sizeof freed); memset(released, 0, sizeof released);
   memset(pub, 0, sizeof pub); memset(seen, 0, sizeof seen); memset(cbs, 0, sizeof cbs);
   memset(eff, 0, sizeof eff); memset(completed, 0, sizeof completed); memset(S, 0, sizeof S);
-  cb_of = closing_now = -1; efd_count = 0; ei_left = eintr_budget; viol[0] = 0; pathlen = 0; effbuf[0] = 0;
+  cb_of = closing_now = -1; efd_count = 0; ei_left = eintr_budget; fk_left = fork_budget; memset(dead, 0, sizeof dead); viol[0] = 0; pathlen = 0; effbuf[0] = 0;
   for (h = 0; h < nh; h++) {
     H[h] = malloc(sizeof(uv_async_t));
     if (uv_async_init(L, H[h], async_cb)) { fprintf(stderr, "uv_async_init failed\n"); exit(3); }
@@ -493,6 +510,7 @@ static int do_tok(tok_t k, int print) {
     sched_step(k.arg + 1, CMD_STEP);
   } else if (k.kind == 'e') { ei_left--; sched_step(k.arg + 1, CMD_EINTR); }
   else if (k.kind == 'i') { ei_left--; sched_step(0, CMD_EINTR); }
+  else if (k.kind == 'k') { fk_left--; sched_step(0, CMD_FORK); }
   else if (k.kind == 'l') sched_step(0, CMD_STEP);
   else if (k.kind == 'c') sched_step(0, CMD_CLOSE + 16 * k.arg);
   else if (k.kind == 'f') sched_step(0, CMD_CLOSECB);
@@ -572,7 +590,7 @@ static void rand_runs(uint64_t seed, int runs) {
       if (n == 0) break;
       /* close / close-callback choices are taken less often; a chosen thread tends to keep running for a while
          and then get preempted (preemption inside the few-instruction windows is the point) */
-      for (i = 0; i < n; i++) { w[i] = (en[i].kind == 'c' || en[i].kind == 'f' || en[i].kind == 'e' || en[i].kind == 'i') ? 1 : 4; if (i == sticky) w[i] += 6; tot += w[i]; }
+      for (i = 0; i < n; i++) { w[i] = (en[i].kind == 'c' || en[i].kind == 'f' || en[i].kind == 'e' || en[i].kind == 'i' || en[i].kind == 'k') ? 1 : 4; if (i == sticky) w[i] += 6; tot += w[i]; }
       x = rnd() % tot;
       for (i = 0; i < n; i++) { if (x < (uint64_t) w[i]) break; x -= w[i]; }
       sticky = (rnd() % 3 == 0) ? -1 : i;
@@ -586,7 +604,7 @@ static void rand_runs(uint64_t seed, int runs) {
 
 static int parse_tok(const char* w, tok_t* k) {
   k->kind = w[0]; k->arg = 0;
-  if (w[0] == 'l' || w[0] == 'f' || w[0] == 'i') return w[1] == 0;
+  if (w[0] == 'l' || w[0] == 'f' || w[0] == 'i' || w[0] == 'k') return w[1] == 0;
   if ((w[0] == 's' || w[0] == 'c' || w[0] == 'e') && w[1] >= '0' && w[1] <= '9' && w[2] == 0) { k->arg = w[1] - '0'; return 1; }
   return 0;
 }
@@ -596,7 +614,7 @@ static void parse_cfg(char* line) {
   snprintf(cfgline, sizeof cfgline, "%s", line);
   cfgline[strcspn(cfgline, "\r\n")] = 0;
   for (char* p = strtok(line, " \t\r\n"); p && n < 16; p = strtok(NULL, " \t\r\n")) w[n++] = p;
-  nh = ns = 0; free_in_cb = 0; eintr_budget = 0; efd_cap = 0; memset(closable, 0, sizeof closable); memset(nprog, 0, sizeof nprog);
+  nh = ns = 0; free_in_cb = 0; eintr_budget = 0; efd_cap = 0; fork_budget = 0; memset(closable, 0, sizeof closable); memset(nprog, 0, sizeof nprog);
   for (i = 0; i < MAXS; i++) sigvictim[i] = -2;
   for (i = 1; i < n; i++) {
     char* v = strchr(w[i], '=');
@@ -605,6 +623,7 @@ static void parse_cfg(char* line) {
     if (!strcmp(w[i], "nh")) nh = atoi(v);
     else if (!strcmp(w[i], "free")) free_in_cb = !strcmp(v, "cb");
     else if (!strcmp(w[i], "eintr")) eintr_budget = atoi(v);
+    else if (!strcmp(w[i], "fork")) fork_budget = atoi(v);
     else if (!strcmp(w[i], "cap")) efd_cap = (*v == '-') ? 0 : (uint64_t) atoi(v);
     else if (!strcmp(w[i], "close")) { if (*v != '-') for (char* p = v; *p; p++) if (*p >= '0' && *p <= '9' && *p - '0' < MAXH) closable[*p - '0'] = 1; }
     else if (!strcmp(w[i], "senders")) {
@@ -627,6 +646,69 @@ static void parse_cfg(char* line) {
   printf("%s\n", cfgline);
 }
 
+/* ------------------------------------------------------------------ real-process fork monitor (no scheduler, real eventfd + epoll)
+ * variant 0: a send on A is undelivered at fork time; 1: nothing pending; 2: A's send was delivered before the fork.
+ * child: uv_loop_fork(), then a thread sends on A and B while the loop thread is blocked in uv_run(); both callbacks must
+ * run (bounded by a guard timer).  parent: keeps working — the undelivered send is delivered there, a fresh send too. */
+#include <sys/wait.h>
+static int rf_cb[2];
+static uv_async_t rf_h[2];
+static uv_timer_t rf_guard;
+static uv_loop_t rf_loop;
+static void rf_async_cb(uv_async_t* h) {
+  rf_cb[h == &rf_h[1]]++;
+  if (rf_cb[0] && rf_cb[1]) uv_stop(h->loop);
+}
+static void rf_guard_cb(uv_timer_t* t) { uv_stop(t->loop); }
+static void* rf_sender(void* arg) {
+  (void) arg;
+  usleep(30000);                         /* let the loop thread block in epoll first */
+  uv_async_send(&rf_h[0]);
+  uv_async_send(&rf_h[1]);
+  return NULL;
+}
+static void rf_phase(const char* who) {
+  pthread_t th;
+  rf_cb[0] = rf_cb[1] = 0;
+  pthread_create(&th, NULL, rf_sender, NULL);
+  uv_timer_start(&rf_guard, rf_guard_cb, 1500, 0);
+  uv_run(&rf_loop, UV_RUN_DEFAULT);
+  uv_timer_stop(&rf_guard);
+  pthread_join(th, NULL);
+  printf("realfork %s cbA=%d cbB=%d\n", who, rf_cb[0], rf_cb[1]);
+  fflush(stdout);
+}
+static void realfork(int variant) {
+  pid_t pid; int st = 0;
+  uv_loop_init(&rf_loop);
+  uv_async_init(&rf_loop, &rf_h[0], rf_async_cb);
+  uv_async_init(&rf_loop, &rf_h[1], rf_async_cb);
+  uv_timer_init(&rf_loop, &rf_guard);
+  rf_cb[0] = rf_cb[1] = 0;
+  if (variant == 0) uv_async_send(&rf_h[0]);
+  if (variant == 2) { uv_async_send(&rf_h[0]); uv_run(&rf_loop, UV_RUN_NOWAIT); }
+  printf("realfork variant=%d prefork cbA=%d\n", variant, rf_cb[0]);
+  fflush(stdout);
+  pid = fork();
+  if (pid == 0) {
+    if (uv_loop_fork(&rf_loop)) { printf("realfork child uv_loop_fork failed\n"); fflush(stdout); _exit(2); }
+    rf_phase("child");
+    fflush(stdout);
+    _exit(0);
+  }
+  waitpid(pid, &st, 0);
+  if (variant == 0) {                    /* the parent still owes the pre-fork send */
+    rf_cb[0] = 0;
+    uv_run(&rf_loop, UV_RUN_NOWAIT);
+    printf("realfork parent-pending cbA=%d\n", rf_cb[0]);
+  }
+  rf_phase("parent");
+  printf("realfork childstatus=%d\n", WIFEXITED(st) ? WEXITSTATUS(st) : 100 + WTERMSIG(st));
+  uv_close((uv_handle_t*) &rf_h[0], NULL); uv_close((uv_handle_t*) &rf_h[1], NULL); uv_close((uv_handle_t*) &rf_guard, NULL);
+  uv_run(&rf_loop, UV_RUN_DEFAULT);
+  uv_loop_close(&rf_loop);
+}
+
 int main(void) {
   char line[4096];
   setvbuf(stdout, NULL, _IOFBF, 1 << 16);
@@ -639,6 +721,7 @@ int main(void) {
   if (uv_loop_init(L)) return 3;
   while (fgets(line, sizeof line, stdin)) {
     if (!strncmp(line, "cfg", 3)) parse_cfg(line);
+    else if (!strncmp(line, "realfork", 8)) realfork(atoi(line + 8));
     else if (!strncmp(line, "dfs", 3)) { int md = atoi(line + 3); dfs(md > 0 && md < 500 ? md : 300); }
     else if (!strncmp(line, "rand", 4)) { unsigned long long sd = 1; int runs = 1; sscanf(line + 4, "%llu %d", &sd, &runs); rand_runs(sd, runs); }
     else if (!strncmp(line, "sched", 5)) {
